@@ -50,18 +50,38 @@ Definition show_result (r : res dloc) (s : state) : string :=
   | RFail (FThrow (EBoxed d)) => "ERR(boxed) " ++ show_deep 9 s d
   | RFail (FThrow (EEval reason st)) => "ERR(eval_error) " ++ hex_of_string reason ++ " " ++ show_trace st
   | RFail (FThrow (EStd ty w)) => "ERR(" ++ ty ++ ") " ++ hex_of_string w
+  | RFail (FThrow (EForeign w)) => "ERR(other)"
   | RFuel => "FUEL"
   | RFail (FUnsup w) => "UNSUP " ++ w
   end.
 
-(* input: "<hints:0|1> <fuel> <tree dump>" *)
+Definition show_shape (s : state) : string :=
+  "SHAPE " ++ join "," (map dec_of_nat (map (@List.length scope) (s_stacks s))) ++ ";" ++ dec_of_nat (List.length (s_call_params s)) ++ ";" ++ dec_of_nat (s_call_depth s)
+  ++ " LOCALS " ++ join "," (match s_stacks s with (sc :: _) :: _ => map fst sc | _ => [] end).
+
+(* input: "<flags> <fuel> <tree dump>"; flags: "0"/"1" = hints off/on, optionally followed by ",fault=<n>:<kind>" *)
+Definition parse_flags (h : string) : bool * option (nat * string) :=
+  match split_on ","%char h "" with
+  | hb :: rest =>
+      (String.eqb hb "1",
+       match rest with
+       | f :: _ => if has_prefix "fault=" f then
+                     let '(n, kd) := split2 ":"%char (drop_prefix "fault=" f) in
+                     match z_of_dec n with Some z => Some (Z.to_nat z, kd) | None => None end
+                   else None
+       | [] => None
+       end)
+  | [] => (false, None)
+  end.
+
 Definition run_with (ops : numops) (line : string) : string :=
   match words line with
   | h :: f :: rest =>
       match z_of_dec f, read_ast (join " " rest) with
       | Some fz, Some a =>
-          let '(r, s) := run_program (mkcfg (String.eqb h "1")) ops (Z.to_nat fz) a init_state in
-          show_result r s
+          let '(hints, fault) := parse_flags h in
+          let '(r, s) := run_program (mkcfg hints) ops (Z.to_nat fz) a (set_cb init_state (0%nat, fault)) in
+          show_result r s ++ " || " ++ show_shape s
       | _, _ => "UNREADABLE"
       end
   | _ => "BADCASE"
